@@ -35,7 +35,7 @@ theorem Ent.beq_iff (a b : Ent) : (a == b) = true ↔ a = b := beq_iff_eq
     panic (index out of range, nil dereference) is class `runtime`. -/
 inductive PanicKind
   | locked | deadEntity | alreadyHas | missing | addedAndRemoved | noComponents | noRelations
-  | relUnspecified | deadTarget | notRelation | relNotInMask | noRelComponent
+  | relUnspecified | deadTarget | notRelation | relNotInMask | noRelComponent | relTwice
   | unbalancedUnlock | outOfLocks
   | registryFull | registerLocked | obsRegistered | obsNotRegistered | obsNoCallback | obsNonRelation
   | filterRegistered | filterNotRegistered | filterModify
@@ -49,7 +49,7 @@ def PanicKind.name : PanicKind → String
   | .noComponents => "noComponents" | .noRelations => "noRelations"
   | .relUnspecified => "relUnspecified" | .deadTarget => "deadTarget"
   | .notRelation => "notRelation" | .relNotInMask => "relNotInMask"
-  | .noRelComponent => "noRelComponent"
+  | .noRelComponent => "noRelComponent" | .relTwice => "relTwice"
   | .unbalancedUnlock => "unbalancedUnlock" | .outOfLocks => "outOfLocks"
   | .registryFull => "registryFull" | .registerLocked => "registerLocked"
   | .obsRegistered => "obsRegistered" | .obsNotRegistered => "obsNotRegistered"
